@@ -236,6 +236,8 @@ package dispatch
 //@ func (*aggrGroup).run
 //@   props C04 C05 C06
 //@   nosafe
+//@   at call context.WithTimeout assert [each-flush-gets-the-full-delivery-budget-from-when-it-starts] arg1 == ret("dynamic:field:timeout") && count("context.WithTimeout") == count("aggrGroup).flush")
+//@   at call aggrGroup).flush assert [flush-under-a-budgeted-context] count("context.WithTimeout") == count("aggrGroup).flush") + 1
 //@   opaque aggrGroup).flush notify.With marker.WithContext context.WithTimeout aggrGroup).GroupKey aggrGroup).destroyed Timer).Stop
 //@   noeffect notify.With marker.WithContext context.WithTimeout aggrGroup).GroupKey aggrGroup).destroyed dynamic:field:timeout dynamic: Timer).Stop
 //@   at call notify.WithNow assert [tick-instant-not-clock] arg1 == now
@@ -253,6 +255,7 @@ package dispatch
 //@   at call notify.WithGroupLabels assert [labels-of-the-group] arg1 == cell(ag).labels
 //@   ensures [ends-only-when-destroyed-or-cancelled] ret("select") == 1 || (called("aggrGroup).destroyed") && ret("aggrGroup).destroyed"))
 //@   at call aggrGroup).flush assert [rearmed-before-flush] count("aggrGroup).resetTimer") == count("aggrGroup).flush") + 1 && count("notify.WithNow") == count("aggrGroup).flush") + 1
+//@   loop 1 invariant count("context.WithTimeout") == count("aggrGroup).flush")
 //@   loop 1 invariant count("notify.WithGroupKey") == count("aggrGroup).flush") && count("notify.WithGroupLabels") == count("aggrGroup).flush") && count("notify.WithReceiverName") == count("aggrGroup).flush")
 //@             && count("notify.WithRepeatInterval") == count("aggrGroup).flush") && count("notify.WithMuteTimeIntervals") == count("aggrGroup).flush") && count("notify.WithActiveTimeIntervals") == count("aggrGroup).flush")
 //@             && count("marker.WithContext") == count("aggrGroup).flush")
